@@ -290,7 +290,47 @@ func ruleIdx2(c *Ctx, r *Reporter) {
 			}
 		})
 		if probe == nil {
-			r.bad("Index.Add:unique probe", c.pos(gate.Pos()), "unique indexes are not probed with hasKey")
+			// the same probe through the standard library: slices.ContainsFunc(i.tuples(doc), i.hasKey) => return false
+			okStd := false
+			pos := gate.Pos()
+			allInstrs(add, func(in ssa.Instruction) {
+				call, ok := in.(*ssa.Call)
+				if !ok || !(tsucc == call.Block() || tsucc.Dominates(call.Block())) {
+					return
+				}
+				sf := calleeObj(&call.Call)
+				if sf == nil || sf.Pkg() == nil || sf.Pkg().Path() != "slices" || sf.Name() != "ContainsFunc" || len(call.Call.Args) != 2 {
+					return
+				}
+				mc, ok := call.Call.Args[1].(*ssa.MakeClosure)
+				if !ok {
+					return
+				}
+				bound, ok := mc.Fn.(*ssa.Function)
+				if !ok || !strings.Contains(bound.Name(), "hasKey") {
+					return
+				}
+				tc := tuplesCall(add)
+				if tc == nil || stripValue(call.Call.Args[0]) != ssa.Value(tc) {
+					return
+				}
+				// a hit returns false
+				if refs := call.Referrers(); refs != nil {
+					for _, ref := range *refs {
+						if iff, ok := ref.(*ssa.If); ok {
+							for _, x := range iff.Block().Succs[0].Instrs {
+								if ret, ok := x.(*ssa.Return); ok && len(ret.Results) == 1 {
+									if b, ok := constBool(retVal(ret, 0)); ok && !b {
+										okStd = true
+										pos = call.Pos()
+									}
+								}
+							}
+						}
+					}
+				}
+			})
+			r.check(okStd, "Index.Add:unique probe", c.pos(pos), "every tuple of i.tuples(doc) is probed through slices.ContainsFunc(tuples, i.hasKey); a hit returns false", "unique indexes are not probed with hasKey")
 		} else {
 			hit := false
 			if refs := probe.Referrers(); refs != nil {
@@ -467,7 +507,68 @@ func ruleIdx3(c *Ctx, r *Reporter) {
 			r.check(guarded, funcName(fn)+":delete(c.Indexes, k)", c.pos(in.Pos()), "only reachable when k != \"_id_\"", "the _id_ index can be removed: duplicate _id values would be accepted afterwards")
 		})
 	}
-	r.guard(nDel, 2, "delete(c.Indexes, ...) sites")
+	// maps.DeleteFunc(c.Indexes, func(name, index) bool {...}): the predicate may answer true only for names other than "_id_"
+	for _, fn := range c.repoFuncs() {
+		if p := fnPkgPath(fn); p != pkgMongokit && p != pkgLungo {
+			continue
+		}
+		allInstrs(fn, func(in ssa.Instruction) {
+			call, ok := in.(*ssa.Call)
+			if !ok {
+				return
+			}
+			f := calleeObj(&call.Call)
+			if f == nil || f.Pkg() == nil || f.Pkg().Path() != "maps" || f.Name() != "DeleteFunc" || len(call.Call.Args) != 2 || !isLoadOf(call.Call.Args[0], idxF) {
+				return
+			}
+			nDel++
+			good := false
+			if mc, ok := call.Call.Args[1].(*ssa.MakeClosure); ok {
+				if pf, ok := mc.Fn.(*ssa.Function); ok && len(pf.Params) >= 1 {
+					name := pf.Params[0]
+					good = true
+					for _, ret := range returnsOf(pf) {
+						if v, isConst := constBool(retVal(ret, 0)); isConst && !v {
+							continue
+						}
+						// a return that may be true must lie behind name != "_id_"
+						okRet := false
+						for _, b := range pf.Blocks {
+							iff, ok := b.Instrs[len(b.Instrs)-1].(*ssa.If)
+							if !ok {
+								continue
+							}
+							bo, ok := iff.Cond.(*ssa.BinOp)
+							if !ok || (bo.Op != token.EQL && bo.Op != token.NEQ) {
+								continue
+							}
+							var other ssa.Value
+							if bo.X == ssa.Value(name) {
+								other = bo.Y
+							} else if bo.Y == ssa.Value(name) {
+								other = bo.X
+							}
+							if sv, ok := constString(other); other == nil || !ok || sv != "_id_" {
+								continue
+							}
+							ne := b.Succs[0]
+							if bo.Op == token.EQL {
+								ne = b.Succs[1]
+							}
+							if len(ne.Preds) == 1 && (ne == ret.Block() || ne.Dominates(ret.Block())) {
+								okRet = true
+							}
+						}
+						if !okRet {
+							good = false
+						}
+					}
+				}
+			}
+			r.check(good, funcName(fn)+":maps.DeleteFunc(c.Indexes, pred)", c.pos(in.Pos()), "the predicate can answer true only for names other than \"_id_\"", "the _id_ index can be removed through maps.DeleteFunc: duplicate _id values would be accepted afterwards")
+		})
+	}
+	r.guard(nDel, 1, "delete(c.Indexes, ...) sites")
 }
 
 // ---- IDX-4 -----------------------------------------------------------------------
@@ -485,8 +586,60 @@ func ruleIdx4(c *Ctx, r *Reporter) {
 			continue
 		}
 		key := "mongokit.Index." + name
+		// the body: the method itself, or the function of the package it hands everything to (return h(args...)), read
+		// with h's parameters bound to the arguments of that call - three methods sharing one gate differ only in
+		// the base operation and the skipped result they pass
+		body := fn
+		bind := map[ssa.Value]ssa.Value{}
+		if rets := returnsOf(fn); len(rets) == 1 && len(fn.Blocks) == 1 {
+			var tail *ssa.Call
+			for i := 0; i < len(rets[0].Results); i++ {
+				if ex, ok := retVal(rets[0], i).(*ssa.Extract); ok {
+					if call, ok := ex.Tuple.(*ssa.Call); ok && ex.Index == i {
+						tail = call
+					}
+				}
+			}
+			if tail != nil {
+				if h := staticFn(&tail.Call); h != nil && h.Blocks != nil && fnPkgPath(h) == pkgMongokit && len(h.Params) == len(tail.Call.Args) {
+					body = h
+					for i, p := range h.Params {
+						bind[p] = tail.Call.Args[i]
+					}
+				}
+			}
+		}
+		res := func(v ssa.Value) ssa.Value {
+			if w, ok := bind[v]; ok {
+				return w
+			}
+			return v
+		}
+		// the base operation: bsonkit.Index.<name>(doc), called directly or through a bound method value
+		baseName := func(call *ssa.Call) string {
+			if f := calleeObj(&call.Call); f != nil && f.Pkg() != nil && f.Pkg().Path() == pkgBsonkit && strings.HasPrefix(fullShort(f), "Index.") {
+				return f.Name()
+			}
+			if mc, ok := res(call.Call.Value).(*ssa.MakeClosure); ok && !call.Call.IsInvoke() {
+				if bf, ok := mc.Fn.(*ssa.Function); ok && strings.HasSuffix(bf.Name(), "$bound") && len(mc.Bindings) == 1 {
+					if f, ok := bf.Object().(*types.Func); ok && f.Pkg() != nil && f.Pkg().Path() == pkgBsonkit && strings.HasPrefix(fullShort(f), "Index.") {
+						return f.Name()
+					}
+				}
+			}
+			return ""
+		}
+		docArg := func(call *ssa.Call) ssa.Value {
+			if calleeObj(&call.Call) != nil && !call.Call.IsInvoke() && len(call.Call.Args) == 2 {
+				return res(call.Call.Args[1])
+			}
+			if len(call.Call.Args) == 1 {
+				return res(call.Call.Args[0])
+			}
+			return nil
+		}
 		var base, match *ssa.Call
-		allInstrs(fn, func(in ssa.Instruction) {
+		allInstrs(body, func(in ssa.Instruction) {
 			call, ok := in.(*ssa.Call)
 			if !ok {
 				return
@@ -494,7 +647,7 @@ func ruleIdx4(c *Ctx, r *Reporter) {
 			if calleeObj(&call.Call) == matchF {
 				match = call
 			}
-			if f := calleeObj(&call.Call); f != nil && f.Pkg() != nil && f.Pkg().Path() == pkgBsonkit && strings.HasPrefix(fullShort(f), "Index.") {
+			if baseName(call) != "" {
 				base = call
 			}
 		})
@@ -502,9 +655,9 @@ func ruleIdx4(c *Ctx, r *Reporter) {
 			r.bad(key+":shape", c.pos(fn.Pos()), "method does not both gate on Match and delegate to the base index")
 			continue
 		}
-		r.check(calleeObj(&base.Call).Name() == name && base.Call.Args[1] == fn.Params[1], key+":delegates", c.pos(base.Pos()), "delegates to base."+name+"(doc)", "delegates to base."+calleeObj(&base.Call).Name()+" - the wrong base operation")
+		r.check(baseName(base) == name && docArg(base) == ssa.Value(fn.Params[1]), key+":delegates", c.pos(base.Pos()), "delegates to base."+name+"(doc)", "delegates to base."+baseName(base)+" - the wrong base operation")
 		// Match(doc, partial) with partial loaded from config.Partial, under `Partial != nil`
-		partialOK := match.Call.Args[0] == fn.Params[1]
+		partialOK := res(match.Call.Args[0]) == ssa.Value(fn.Params[1])
 		if u, ok := match.Call.Args[1].(*ssa.UnOp); ok {
 			if fa, ok := u.X.(*ssa.FieldAddr); ok && structFieldOf(fa).Name() == "Partial" {
 			} else {
@@ -526,7 +679,7 @@ func ruleIdx4(c *Ctx, r *Reporter) {
 				}
 				for _, x := range noMatch.Instrs {
 					if ret, ok := x.(*ssa.Return); ok && len(ret.Results) == 2 {
-						b, isConst := constBool(retVal(ret, 0))
+						b, isConst := constBool(res(retVal(ret, 0)))
 						if isConst && isNilConst(retVal(ret, 1)) && b == (name != "Has") {
 							good = true
 						}
@@ -656,7 +809,7 @@ func ruleIdx5(c *Ctx, r *Reporter) {
 	}
 	var b2 *ssa.Call
 	var mu *ssa.MapUpdate
-	allInstrs(bc, func(in ssa.Instruction) {
+	coneInstrs(bc, func(in ssa.Instruction) {
 		switch x := in.(type) {
 		case *ssa.Call:
 			if calleeFull(&x.Call) == pkgMongokit+".Index.Build" {
@@ -685,7 +838,7 @@ func ruleIdx5(c *Ctx, r *Reporter) {
 			keyOK = true
 		}
 	}
-	r.check(keyOK && mu.Value == b2.Call.Args[0], "File.BuildCatalog:index installed under its name", c.pos(mu.Pos()), "the rebuilt index is stored under the name it was saved with", "the rebuilt index is stored under another key or another index is installed")
+	r.check(keyOK && resolveHelperValue(mu.Value) == b2.Call.Args[0], "File.BuildCatalog:index installed under its name", c.pos(mu.Pos()), "the rebuilt index is stored under the name it was saved with", "the rebuilt index is stored under another key or another index is installed")
 	_ = types.Universe
 }
 
